@@ -1001,5 +1001,5 @@ def run(ctx):
 
 
 FINISH = dict(level="proof",
-              rule="every ordered pair and triple of the 16 operators and every 4-tuple over 10 of them on fixed small literals; every operator x ordered pair of 14 operand kinds; every variable kind under == / != against numbers, text and every other kind, alone and parenthesised; random trees (2-8 operands, nesting <= 3, |v| <= 1000, dyadic fractions, exponents 0..6) with injected zero divisors and fractional powers; malformed text incl. every truncation of three expressions; each in {math:}, <if case> and ParseExpressions+Evaluate; non-trivial = distinct input line",
+              rule="every ordered pair and triple of the 16 operators and every 4-tuple over 10 of them on fixed small literals; every operator x ordered pair of 14 operand kinds; every variable kind under == / != against numbers, text and every other kind, alone and parenthesised; random trees (2-8 operands, nesting <= 3, |v| <= 1000, dyadic fractions, exponents 0..6) with injected zero divisors and fractional powers; stream Z: zero divisors of every origin (literals 0 / -0 / -0.0, variables, strings, computed) under / and % in 12 contexts with the no-value oracle on all three entry points; malformed text incl. every truncation of three expressions; each in {math:}, <if case> and ParseExpressions+Evaluate; non-trivial = distinct input line",
               checker_cmd="cd lean && lake build Qentem.Props.C04 && lake env lean <#print axioms of the listed theorems>; python3 check.py C04")
